@@ -27,7 +27,9 @@ type faultCase struct {
 func kindsFor(pk probeKind) []faultKind {
 	switch pk {
 	case pkValue, pkMethod:
-		return []faultKind{fkErr, fkWrongKind}
+		return []faultKind{fkErr, fkWrongKind, fkErrTyped, fkErrWrapsTyped}
+	case pkErr, pkOpts:
+		return []faultKind{fkErr, fkErrTyped}
 	case pkBlock:
 		return []faultKind{fkBlockPre, fkBlockPost}
 	}
@@ -181,7 +183,7 @@ func faultProbeRun(t *rapid.T) {
 				}
 			} else if inv.Kind == pkMethod && fk == fkErr {
 				fkName = "method"
-			} else if inv.Kind == pkErr {
+			} else if inv.Kind == pkErr && fk == fkErr {
 				fkName = "err-only"
 			} else if site.Late {
 				count("fault_fired_inner-late-block", 1)
